@@ -32,6 +32,7 @@ cCreate_CompCol_Matrix(SuperMatrix *A, int_t m, int_t n, int_t nnz, complex *nzv
     A->nrow = m;
     A->ncol = n;
     A->Store = (void *) SUPERLU_MALLOC( sizeof(NCformat) );
+    if ( !(A->Store) ) SUPERLU_ABORT("SUPERLU_MALLOC fails for A->Store");
     Astore = (NCformat *) A->Store;
     Astore->nnz = nnz;
     Astore->nzval = nzval;
@@ -52,6 +53,7 @@ cCreate_CompRow_Matrix(SuperMatrix *A, int_t m, int_t n, int_t nnz, complex *nzv
     A->nrow = m;
     A->ncol = n;
     A->Store = (void *) SUPERLU_MALLOC( sizeof(NRformat) );
+    if ( !(A->Store) ) SUPERLU_ABORT("SUPERLU_MALLOC fails for A->Store");
     Astore = (NRformat *) A->Store;
     Astore->nnz = nnz;
     Astore->nzval = nzval;
@@ -72,6 +74,7 @@ cCreate_CompCol_Permuted(SuperMatrix *A, int_t m, int_t n, int_t nnz, complex *n
     A->nrow = m;
     A->ncol = n;
     A->Store = (void *) SUPERLU_MALLOC( sizeof(NCPformat) );
+    if ( !(A->Store) ) SUPERLU_ABORT("SUPERLU_MALLOC fails for A->Store");
     Astore = (NCPformat *) A->Store;
     Astore->nnz = nnz;
     Astore->nzval = nzval;
@@ -214,6 +217,7 @@ cCreate_Dense_Matrix(SuperMatrix *X, int_t m, int_t n, complex *x, int_t ldx,
     X->nrow = m;
     X->ncol = n;
     X->Store = (void *) SUPERLU_MALLOC( sizeof(DNformat) );
+    if ( !(X->Store) ) SUPERLU_ABORT("SUPERLU_MALLOC fails for X->Store");
     Xstore = (DNformat *) X->Store;
     Xstore->lda = ldx;
     Xstore->nzval = (complex *) x;
@@ -250,6 +254,7 @@ cCreate_SuperNode_Matrix(SuperMatrix *L, int_t m, int_t n, int_t nnz, complex *n
     L->nrow = m;
     L->ncol = n;
     L->Store = (void *) SUPERLU_MALLOC( sizeof(SCformat) );
+    if ( !(L->Store) ) SUPERLU_ABORT("SUPERLU_MALLOC fails for L->Store");
     Lstore = L->Store;
     Lstore->nnz = nnz;
     Lstore->nsuper = col_to_sup[n];
@@ -279,6 +284,7 @@ cCreate_SuperNode_Permuted(SuperMatrix *L, int_t m, int_t n, int_t nnz,
     L->nrow = m;
     L->ncol = n;
     L->Store = (void *) SUPERLU_MALLOC( sizeof(SCPformat) );
+    if ( !(L->Store) ) SUPERLU_ABORT("SUPERLU_MALLOC fails for L->Store");
     Lstore = L->Store;
     Lstore->nnz = nnz;
     Lstore->nsuper = col_to_sup[n];
